@@ -1,5 +1,6 @@
 import KyupyVerif.Proofs.SubstSome4
 import KyupyVerif.Proofs.ResolveSome
+import KyupyVerif.Proofs.SubstKeys
 import KyupyVerif.Props.C10
 import KyupyVerif.Gen.TechImpl
 import KyupyVerif.Proofs.TechImplChk0
@@ -53,11 +54,14 @@ module proves the success itself.
 * **Correspondence**: that the generated dumps ARE the library objects (gen/dump_techlib.py: `render_nnet` = `circ.dump_net`), and the
   hypotheses evaluated per case by harness/c10.py (driver commands `substsome`, tags `isSome-hyp:*`; `resolveok`, tags `runSome-hyp:*`):
   a real use inside the hypotheses on which the real code raises is a broken tie.
+* **Theorem** `substitute_kindNames_subset` / `substitute_keys_subset` (transport lemma (3) of the list below, Proofs/SubstKeys.lean): under
+  `substSomeHypB` every node of the result carries the (kind, name) of a host node, or (kind of the designated cell, name of the
+  instance), or of an added node: `h'.keys ⊆ h.keys ∪ {re-kinded instance} ∪ addedKeys`.  Not yet used by a whole-run theorem.
 * **Not theorem** (what is missing for a purely STATIC whole-run theorem): transport of the per-instance clauses from the ORIGINAL
   circuit to the intermediate circuits.  Needed and not exported by `substitute_sem_general` (`SubstGenStmt`): for a host node `d ≠ c`
   that survives a substitution (through the index map `R`) (1) `ins.length` and, for non-forks, `outs.length` are unchanged
   (`arityOKB` speaks about list lengths; `SubstGenStmt` gives `inPin k` for every `k` only), (2) a host line that was driven by the
-  substituted cell is afterwards driven by an image of `node_map`, never by another host node (for `noSelfIgnB`), (3) the key set of
+  substituted cell is afterwards driven by an image of `node_map`, never by another host node (for `noSelfIgnB`), (3) [NOW PROVED, one step: `substitute_keys_subset`] the key set of
   the result is contained in host keys ∪ `addedKeys` (for `addFreshB`; then a static condition "original keys ++ all added keys of all
   instances are pairwise different" would do), (4) names of the copies (only kinds are exported).  Port / fork status and the kind of a
   surviving host node (hence WHICH implementation is looked up) are already exported (`SubstGenStmt`: `io`, kind, name clauses). -/
@@ -211,6 +215,36 @@ theorem resolve_two_instances_isSome : (resolveCells exLib2 exHost2).isSome = tr
       · exact ⟨Gen.techImplChunk1, by simp [Gen.techImplChunks], exTabTbuf, List.getElem_mem _, rfl⟩
       · exact ⟨Gen.techImplChunk6, by simp [Gen.techImplChunks], exTabAnt, List.getElem_mem _, rfl⟩))
     (by decide +kernel) (by decide +kernel) (by decide +kernel)
+
+/-- **transport lemma (3), key freshness**: under `substSomeHypB` every node of the result of `substitute` carries the (kind, name) of
+    a node of the host, or (kind of the designated cell, name of the instance), or the (kind, name) of an added node (`addedKN`) -/
+theorem substitute_kindNames_subset (h m h' : NNet) (c : Nat) (hyp : substSomeHypB h c m = true) (he : substitute h c m = some h') :
+    ∃ sh, implShape m = some sh ∧ ∀ kn ∈ h'.kindNames, kn ∈ h.kindNames ∨
+      (∃ dn, sh.des = some dn ∧ kn = ((m.net.node dn).kind, h.names.getD c "")) ∨ kn ∈ addedKN m (h.names.getD c "") sh.des := by
+  simp only [substSomeHypB, Bool.and_eq_true, decide_eq_true_eq, Bool.not_eq_true'] at hyp
+  obtain ⟨⟨⟨⟨⟨⟨⟨⟨⟨⟨h1, h2⟩, h3⟩, h4⟩, h5⟩, h6⟩, h7⟩, h8⟩, h9⟩, h10⟩, h11⟩ := hyp
+  exact substitute_kindNames_mem h m h' c (WFm.of_wfNoTrail h1) (FD_of_forksDenseB h2) (WF.of_wf h3) h4 (by simpa using h5) h6 h7 h8 h9 h10
+    (fun sh hs => by
+      simp only [arityOKB, hs, Bool.and_eq_true, decide_eq_true_eq] at h11
+      exact h11) he
+
+/-- … hence the KEY set of the result is contained in host keys ∪ {key of the re-kinded instance} ∪ `addedKeys` -/
+theorem substitute_keys_subset (h m h' : NNet) (c : Nat) (hyp : substSomeHypB h c m = true) (he : substitute h c m = some h') :
+    ∃ sh, implShape m = some sh ∧ ∀ k ∈ h'.keys, k ∈ h.keys ∨
+      (∃ dn, sh.des = some dn ∧ k = keyOfKN ((m.net.node dn).kind, h.names.getD c "")) ∨ k ∈ addedKeys m (h.names.getD c "") sh.des := by
+  obtain ⟨sh, hs, hk⟩ := substitute_kindNames_subset h m h' c hyp he
+  refine ⟨sh, hs, ?_⟩
+  intro k hkm
+  rw [keys_eq_kindNames, List.mem_map] at hkm
+  obtain ⟨kn, hkn, rfl⟩ := hkm
+  rcases hk kn hkn with h1 | ⟨dn, hd, rfl⟩ | h1
+  · exact Or.inl (by rw [keys_eq_kindNames]; exact List.mem_map_of_mem h1)
+  · exact Or.inr (Or.inl ⟨dn, hd, rfl⟩)
+  · exact Or.inr (Or.inr (List.mem_map_of_mem h1))
+
+/-- hypotheses of `substitute_keys_subset` on the first substitution of `exHost2` (the table cell `TBUF_X1` at node 3) -/
+example : substSomeHypB exHost2 3 exTabTbuf.2.2 = true ∧ (substitute exHost2 3 exTabTbuf.2.2).isSome = true ∧
+    (implShape exTabTbuf.2.2).map (fun sh => addedKeys exTabTbuf.2.2 "u" sh.des) = some [] := by decide +kernel
 
 /-! ## non-vacuity -/
 /-- the objects of `resolve_two_instances_isSome`: the table entries are the named cells, the second substitution runs on a circuit
